@@ -91,8 +91,8 @@ def run(ctx) -> None:
         ctx.check("R1", not bad, f"{fq}: transitive effects are read / echo / log / exit / raise only", f"{fq}: the dry path has side effects", f"{bad}", loc=prog.function(fq).loc(),
                   path=s[bad[0]] if bad else None)
     # dry returns before the update step
-    tu = shapes.find_calls(prog, upd, "cli._try_update")
-    ctx.require(len(tu) == 1, "update: expected one _try_update call")
+    tu = [c_ for c_, _f in shapes.calls_toward(ctx, upd, "cli._update")]
+    ctx.require(len(tu) == 1, "update: expected one call that leads to _update")
     r = upc.reach(ucfg.node_containing(tu[0]))
     ctx.check("R1", r.implies(~BF.var("dry")), "update: _try_update only when not dry", "cli.update: the real update runs under --dry", r.project(["dry"]).to_dnf(), loc=upd.loc(tu[0]))
 
@@ -326,7 +326,19 @@ def run(ctx) -> None:
     ctx.floor("R4", "functions between difflib and click.echo", n_fn, 6)
     # what is printed when stdout is not a terminal is the diff text itself (one echo of the whole text): re-splitting it
     # with str.splitlines() would also break lines at form feeds, vertical tabs, U+2028 ...
-    pds = prog.function("cli._print_diff_str")
+    # the printing function: the one on the _print_diff path that branches on isatty() (cli._print_diff_str on the pinned tree)
+    pds = None
+    for cand_ in ("cli._print_diff_str", "cli._print_diff"):
+        if prog.has_function(cand_) and any(isinstance(x_, ast.Attribute) and x_.attr == "isatty" for x_ in ast.walk(prog.function(cand_).node)):
+            pds = prog.function(cand_)
+            break
+    ctx.require(pds is not None, "no function on the _print_diff path branches on sys.stdout.isatty()")
+    if pds.qualname == "_print_diff_str":
+        text_var = pds.params[0]
+    else:
+        srcs_ = [tg_.id for _st, tg_, v_ in shapes.iter_assigns(pds.node) if isinstance(tg_, ast.Name) and isinstance(v_, ast.Call) and unparse(v_.func) == "get_diff"]
+        ctx.require(len(srcs_) == 1, f"{pds.qualname}: the local holding get_diff(...) was not found")
+        text_var = srcs_[0]
     pg = cfgs.get(pds.fq)
     ppc = PathCond(pg)
     tty = [a_ for a_ in ppc.atoms if a_.endswith("isatty()")]
@@ -338,9 +350,10 @@ def run(ctx) -> None:
             if (r_ & ~BF.var(tty[0])).is_false():
                 continue          # only reached on a terminal (coloured output)
             arg = shapes.inline(pds, c_.args[0], prog) if c_.args else None
-            plain = arg is not None and isinstance(arg, ast.Name) and arg.id == pds.params[0] and not shapes.enclosing_loops(pds, c_)
-            ctx.check("R4", plain, f"_print_diff_str: without a terminal the diff text `{pds.params[0]}` is echoed as it is",
-                      "cli._print_diff_str: the plain diff is re-assembled before it is printed",
+            raw_ = c_.args[0] if c_.args else None
+            plain = any(isinstance(a__, ast.Name) and a__.id == text_var for a__ in (arg, raw_)) and not shapes.enclosing_loops(pds, c_)
+            ctx.check("R4", plain, f"{pds.qualname}: without a terminal the diff text `{text_var}` is echoed as it is",
+                      f"{pds.fq}: the plain diff is re-assembled before it is printed",
                       f"`{unparse(c_)}`" + (" inside a loop" if shapes.enclosing_loops(pds, c_) else "") + ": lines are split at every Unicode line boundary (form feed, vertical tab, U+2028), "
                       "so a changed or context line containing one is printed as two lines and the output is no longer an applicable unified diff", loc=pds.loc(c_), witness={"line": "page break\x0cnext page"})
     else:
